@@ -166,7 +166,12 @@ def chunk_plan(case):
     if cuts == "items":  # one chunk per event
         cuts = item_bounds(case)
     pieces = cut_bytes(b, cuts) if b else []
-    plan = [(t0 + i * gap, p) for i, p in enumerate(pieces)]
+    if case.get("ticks"):
+        # explicit release tick of every piece (the last one repeats)
+        tk = list(case["ticks"])
+        plan = [(tk[min(i, len(tk) - 1)], p) for i, p in enumerate(pieces)]
+    else:
+        plan = [(t0 + i * gap, p) for i, p in enumerate(pieces)]
     last = plan[-1][0] if plan else t0
     close = None if case.get("close") is None else last + case["close"]
     return plan, close
@@ -1374,3 +1379,43 @@ def silent_longer_than_timeout(case):
     last = ticks[-1]
     reqs_after = [r for r in case.get("reqs", []) if "ed" in r and r["at"] + r["ed"] - last > T]
     return any(g > T for g in gaps) or bool(reqs_after)
+
+
+KEEPALIVES = [None, {"k": "raw", "text": ": keep-alive\n"}, {"k": "raw", "text": "event: keepalive\ndata: {}\n\n"},
+              {"k": "raw", "text": "event: ping\ndata: 1\n\n"}, {"k": "raw", "text": ":\n\n"}]
+# every field of SSEParameters set at least once, with the small / zero / very large values the class accepts
+INTERVAL_PARAM_SETS = [
+    {},
+    {"keep_alive_interval": 0.5},
+    {"keep_alive_interval": 2.0, "reconnect_delay": 0.25, "auto_reconnect": False},
+    {"reconnect_delay": 0, "max_reconnect_attempts": 0, "session_id": "k"},
+    {"keep_alive_interval": 1000000.0, "reconnect_delay": 1000000.0, "max_reconnect_attempts": 10 ** 9},
+    {"keep_alive_interval": 0.001, "sse_endpoint": "", "message_endpoint_base": "", "bearer_token": "t", "headers": {"X": "y"}},
+]
+
+
+def silence_cases(budget, rng):
+    """the event stream is silent for 2x, 3x+1 and 10x every interval-like number the parameters
+    class documents (timeout, keep_alive_interval, reconnect_delay; and the 15 s connection cap),
+    with default and non-default values of them, after nothing / a comment / a keep-alive or ping
+    event; then server messages arrive and a request is answered on the stream"""
+    out = []
+    k = 0
+    for ps in INTERVAL_PARAM_SETS:
+        T = 64
+        ivals = {T, int(round(ps.get("keep_alive_interval", 30.0) * 1024)), int(round(ps.get("reconnect_delay", 1.0) * 1024)), 15 * 1024}
+        ivals = sorted(v for v in ivals if 0 < v <= 40 * 1024)
+        for v in ivals:
+            for mult in (2 * v, 3 * v + 1, 10 * v):
+                for pre in KEEPALIVES:
+                    k += 1
+                    if budget == "quick" and k % 2 and pre is not None and mult == 2 * v:
+                        continue
+                    items = [EP, msg_notif(0)] + ([pre] if pre else []) + [msg_notif(1), msg_srvreq(k), msg_notif(2)]
+                    n0 = 2 + (1 if pre else 0)
+                    ticks = [1, 2] + ([3] if pre else []) + [3 + mult, 4 + mult, 5 + 2 * mult]
+                    c = {"T": T, "tie": TIES[k % 3], "params": ps, "items": items, "cuts": "items", "ticks": ticks,
+                         "reqs": [mk_req(1, 3, {"mode": "200"}), mk_req(2, mult + 10, {"mode": "ackev", "d": 2, "ed": 5}, id=[7, "r2"][k % 2]),
+                                  mk_req(3, 2 * mult + 20, {"mode": "evack", "d": 9, "ed": 3})]}
+                    out.append(finish(c))
+    return out
